@@ -240,7 +240,12 @@ class Component( ComponentLevel7 ):
       parent._dsl.upblk_reads[blk].add( eval(obj_name) )
 
     for blk, obj_name in provided_upblk_writes:
-      parent._dsl.upblk_writes[blk].add( eval(obj_name) )
+      x = eval(obj_name)
+      parent._dsl.upblk_writes[blk].add( x )
+      # A signal of the new component that an update_ff block of the
+      # parent writes (s.child.in_ <<= ...) is a register as well
+      if blk in parent._dsl.update_ff:
+        x._dsl.needs_double_buffer = True
 
     for blk, obj_name in provided_upblk_calls:
       parent._dsl.upblk_calls[blk].add( eval(obj_name) )
